@@ -708,6 +708,8 @@ func enumC17(n int, seed int64, thorough bool) []func() []wcaseT {
 			if g%3 == 2 {
 				// a transient sink failure somewhere in the program: the lifecycle rules hold for the attempts that follow
 				run.FailAt = []int{1 + rnd.Intn(4)}
+				// ... every other one a partial write: the sink takes half of the bytes and reports an error
+				run.Partial = g%6 == 5
 				run.Prog = append(run.Prog, "C", "G")
 			}
 			run.Size = total + 64
